@@ -4,127 +4,239 @@
 (* counts, round sizes, block sizes and shifts (overlapping or not): each round's per-rank tiles partition *)
 (* the round, the block arrives intact and no other byte changes; record sections and fixed variables are *)
 (* moved last-to-first without clobbering. *)
+From Coq Require Import ZArith List.
 From Pnc Require Import Proofs_Move.
+From Pnc Require Import Proofs_Layout.
+From Pnc Require Import Proofs_Redef.
 Set Printing Width 100.
+Set Printing Depth 100000.
 
 Theorem C06_round_partition :
-  forall (np chunk from to left nb : BinNums.Z)
-           (xs : list (BinNums.Z * BinNums.Z * BinNums.Z)),
-         BinInt.Z.ge np (BinNums.Zpos BinNums.xH) ->
-         BinInt.Z.ge chunk (BinNums.Zpos BinNums.xH) ->
-         BinInt.Z.gt left BinNums.Z0 ->
+  forall (np chunk from to left nb : Z) (xs : list (Z * Z * Z)),
+         (np >= 1)%Z ->
+         (chunk >= 1)%Z ->
+         (left > 0)%Z ->
          Move.move_round np chunk from to left = (nb, xs) ->
-         (BinInt.Z.le BinNums.Z0 nb /\ BinInt.Z.lt nb left) /\
-         (nb = BinNums.Z0 \/ nb = BinInt.Z.sub left (BinInt.Z.mul chunk np)) /\
+         (0 <= nb < left)%Z /\
+         (nb = 0%Z \/ nb = (left - chunk * np)%Z) /\
          Base.Zlen xs = np /\
-         (forall i : BinNums.Z,
-          BinInt.Z.le BinNums.Z0 i /\ BinInt.Z.lt i np ->
+         (forall i : Z,
+          (0 <= i < np)%Z ->
           let
-          '(fo, to_, c) := Base.znth xs i (BinNums.Z0, BinNums.Z0, BinNums.Z0) in
-           (BinInt.Z.le BinNums.Z0 c /\ BinInt.Z.le c chunk) /\
-           BinInt.Z.sub to_ fo = BinInt.Z.sub to from /\
-           (BinInt.Z.gt c BinNums.Z0 ->
-            BinInt.Z.le (BinInt.Z.add from nb) fo /\
-            BinInt.Z.le (BinInt.Z.add fo c) (BinInt.Z.add from left))) /\
-         (forall x : BinNums.Z,
-          BinInt.Z.le (BinInt.Z.add from nb) x /\ BinInt.Z.lt x (BinInt.Z.add from left) ->
-          exists i : BinNums.Z,
-            (BinInt.Z.le BinNums.Z0 i /\ BinInt.Z.lt i np) /\
-            tile_covers (Base.znth xs i (BinNums.Z0, BinNums.Z0, BinNums.Z0)) x /\
-            (forall j : BinNums.Z,
-             BinInt.Z.le BinNums.Z0 j /\ BinInt.Z.lt j np ->
-             tile_covers (Base.znth xs j (BinNums.Z0, BinNums.Z0, BinNums.Z0)) x -> j = i)) /\
-         (forall i j x : BinNums.Z,
-          BinInt.Z.le BinNums.Z0 i /\ BinInt.Z.lt i np ->
-          BinInt.Z.le BinNums.Z0 j /\ BinInt.Z.lt j np ->
-          tile_covers (Base.znth xs i (BinNums.Z0, BinNums.Z0, BinNums.Z0)) x ->
-          tile_covers (Base.znth xs j (BinNums.Z0, BinNums.Z0, BinNums.Z0)) x -> i = j).
+          '(fo, to_, c) := Base.znth xs i (0%Z, 0%Z, 0%Z) in
+           (0 <= c <= chunk)%Z /\
+           (to_ - fo)%Z = (to - from)%Z /\
+           ((c > 0)%Z -> (from + nb <= fo)%Z /\ (fo + c <= from + left)%Z)) /\
+         (forall x : Z,
+          (from + nb <= x < from + left)%Z ->
+          exists i : Z,
+            (0 <= i < np)%Z /\
+            tile_covers (Base.znth xs i (0%Z, 0%Z, 0%Z)) x /\
+            (forall j : Z, (0 <= j < np)%Z -> tile_covers (Base.znth xs j (0%Z, 0%Z, 0%Z)) x -> j = i)) /\
+         (forall i j x : Z,
+          (0 <= i < np)%Z ->
+          (0 <= j < np)%Z ->
+          tile_covers (Base.znth xs i (0%Z, 0%Z, 0%Z)) x ->
+          tile_covers (Base.znth xs j (0%Z, 0%Z, 0%Z)) x -> i = j).
 Proof. exact @round_partition. Qed.
 Print Assumptions C06_round_partition.
 
 Theorem C06_move_file_block_correct :
-  forall (d : Disk.disk) (np unit_ to from n x : BinNums.Z),
-         BinInt.Z.ge np (BinNums.Zpos BinNums.xH) ->
-         BinInt.Z.ge unit_ (BinNums.Zpos BinNums.xH) ->
-         BinInt.Z.le from to ->
-         BinInt.Z.le BinNums.Z0 n ->
+  forall (d : Disk.disk) (np unit_ to from n x : Z),
+         (np >= 1)%Z ->
+         (unit_ >= 1)%Z ->
+         (from <= to)%Z ->
+         (0 <= n)%Z ->
          Disk.dk_get (Move.move_file_block d np unit_ to from n) x =
-         (if (BinInt.Z.leb to x && BinInt.Z.ltb x (BinInt.Z.add to n))%bool
-          then Disk.dk_get d (BinInt.Z.sub x (BinInt.Z.sub to from))
+         (if ((to <=? x)%Z && (x <? to + n)%Z)%bool
+          then Disk.dk_get d (x - (to - from))
           else Disk.dk_get d x).
 Proof. exact @move_file_block_correct. Qed.
 Print Assumptions C06_move_file_block_correct.
 
 Theorem C06_move_file_block_size :
-  forall (d : Disk.disk) (np unit_ to from n : BinNums.Z),
-         BinInt.Z.ge np (BinNums.Zpos BinNums.xH) ->
-         BinInt.Z.ge unit_ (BinNums.Zpos BinNums.xH) ->
+  forall (d : Disk.disk) (np unit_ to from n : Z),
+         (np >= 1)%Z ->
+         (unit_ >= 1)%Z ->
          Disk.dk_size (Move.move_file_block d np unit_ to from n) =
-         (if BinInt.Z.ltb BinNums.Z0 n
-          then BinInt.Z.max (Disk.dk_size d) (BinInt.Z.add to n)
-          else Disk.dk_size d).
+         (if (0 <? n)%Z then Z.max (Disk.dk_size d) (to + n) else Disk.dk_size d).
 Proof. exact @move_file_block_size. Qed.
 Print Assumptions C06_move_file_block_size.
 
 Theorem C06_move_record_vars_correct :
-  forall (d : Disk.disk) (np unit_ numrecs : BinNums.Z) (nl ol : Header.layout),
-         BinInt.Z.ge np (BinNums.Zpos BinNums.xH) ->
-         BinInt.Z.ge unit_ (BinNums.Zpos BinNums.xH) ->
-         BinInt.Z.le BinNums.Z0 numrecs ->
-         BinInt.Z.ge (Header.l_begin_rec nl) (Header.l_begin_rec ol) ->
-         BinInt.Z.ge (Header.l_recsize nl) (Header.l_recsize ol) ->
-         BinInt.Z.ge (Header.l_recsize ol) BinNums.Z0 ->
-         (forall r o : BinNums.Z,
-          BinInt.Z.le BinNums.Z0 r /\ BinInt.Z.lt r numrecs ->
-          BinInt.Z.le BinNums.Z0 o /\ BinInt.Z.lt o (Header.l_recsize ol) ->
+  forall (d : Disk.disk) (np unit_ numrecs : Z) (nl ol : Header.layout),
+         (np >= 1)%Z ->
+         (unit_ >= 1)%Z ->
+         (0 <= numrecs)%Z ->
+         (Header.l_begin_rec nl >= Header.l_begin_rec ol)%Z ->
+         (Header.l_recsize nl >= Header.l_recsize ol)%Z ->
+         (Header.l_recsize ol >= 0)%Z ->
+         (forall r o : Z,
+          (0 <= r < numrecs)%Z ->
+          (0 <= o < Header.l_recsize ol)%Z ->
           Disk.dk_get (Move.move_record_vars d np unit_ numrecs nl ol)
-            (BinInt.Z.add
-               (BinInt.Z.add (Header.l_begin_rec nl) (BinInt.Z.mul r (Header.l_recsize nl))) o) =
-          Disk.dk_get d
-            (BinInt.Z.add
-               (BinInt.Z.add (Header.l_begin_rec ol) (BinInt.Z.mul r (Header.l_recsize ol))) o)) /\
-         (forall x : BinNums.Z,
+            (Header.l_begin_rec nl + r * Header.l_recsize nl + o) =
+          Disk.dk_get d (Header.l_begin_rec ol + r * Header.l_recsize ol + o)) /\
+         (forall x : Z,
           ~ in_new_record nl ol numrecs x ->
           Disk.dk_get (Move.move_record_vars d np unit_ numrecs nl ol) x = Disk.dk_get d x) /\
-         (forall x : BinNums.Z,
-          BinInt.Z.lt x (Header.l_begin_rec nl) ->
+         (forall x : Z,
+          (x < Header.l_begin_rec nl)%Z ->
           Disk.dk_get (Move.move_record_vars d np unit_ numrecs nl ol) x = Disk.dk_get d x).
 Proof. exact @move_record_vars_correct. Qed.
 Print Assumptions C06_move_record_vars_correct.
 
 Theorem C06_move_fixed_vars_correct :
-  forall (d : Disk.disk) (np unit_ : BinNums.Z) (oh : Header.hdr) 
-           (nl ol : Header.layout) (newlens : list BinNums.Z),
-         BinInt.Z.ge np (BinNums.Zpos BinNums.xH) ->
-         BinInt.Z.ge unit_ (BinNums.Zpos BinNums.xH) ->
+  forall (d : Disk.disk) (np unit_ : Z) (oh : Header.hdr) (nl ol : Header.layout)
+           (newlens : list Z),
+         (np >= 1)%Z ->
+         (unit_ >= 1)%Z ->
          fixed_move_ok oh nl ol newlens ->
-         (forall i o : BinNums.Z,
-          BinInt.Z.le BinNums.Z0 i /\ BinInt.Z.lt i (Base.Zlen (Header.h_vars oh)) ->
+         (forall i o : Z,
+          (0 <= i < Base.Zlen (Header.h_vars oh))%Z ->
           fv_isfix oh i = true ->
-          BinInt.Z.le BinNums.Z0 o /\ BinInt.Z.lt o (fv_len newlens i) ->
-          Disk.dk_get (Move.move_fixed_vars d np unit_ oh nl ol newlens)
-            (BinInt.Z.add (fv_to nl i) o) = Disk.dk_get d (BinInt.Z.add (fv_from ol i) o)) /\
-         (forall x : BinNums.Z,
+          (0 <= o < fv_len newlens i)%Z ->
+          Disk.dk_get (Move.move_fixed_vars d np unit_ oh nl ol newlens) (fv_to nl i + o) =
+          Disk.dk_get d (fv_from ol i + o)) /\
+         (forall x : Z,
           ~ in_moved_fixed oh nl ol newlens (Base.Zlen (Header.h_vars oh)) x ->
           Disk.dk_get (Move.move_fixed_vars d np unit_ oh nl ol newlens) x = Disk.dk_get d x).
 Proof. exact @move_fixed_vars_correct. Qed.
 Print Assumptions C06_move_fixed_vars_correct.
 
 Theorem C06_move_fixed_step_no_clobber :
-  forall (np unit_ : BinNums.Z) (oh : Header.hdr) (nl ol : Header.layout)
-           (newlens : list BinNums.Z) (acc : Disk.disk) (i j o : BinNums.Z),
-         BinInt.Z.ge np (BinNums.Zpos BinNums.xH) ->
-         BinInt.Z.ge unit_ (BinNums.Zpos BinNums.xH) ->
+  forall (np unit_ : Z) (oh : Header.hdr) (nl ol : Header.layout) 
+           (newlens : list Z) (acc : Disk.disk) (i j o : Z),
+         (np >= 1)%Z ->
+         (unit_ >= 1)%Z ->
          fixed_move_ok oh nl ol newlens ->
-         BinInt.Z.le BinNums.Z0 i /\ BinInt.Z.lt i (Base.Zlen (Header.h_vars oh)) ->
-         BinInt.Z.le BinNums.Z0 j /\ BinInt.Z.lt j (Base.Zlen (Header.h_vars oh)) ->
+         (0 <= i < Base.Zlen (Header.h_vars oh))%Z ->
+         (0 <= j < Base.Zlen (Header.h_vars oh))%Z ->
          fv_isfix oh j = true ->
-         BinInt.Z.le BinNums.Z0 o /\ BinInt.Z.lt o (fv_len newlens j) ->
-         (BinInt.Z.lt j i ->
-          Disk.dk_get (fix_step np unit_ oh nl ol newlens acc i) (BinInt.Z.add (fv_from ol j) o) =
-          Disk.dk_get acc (BinInt.Z.add (fv_from ol j) o)) /\
-         (BinInt.Z.lt i j ->
-          Disk.dk_get (fix_step np unit_ oh nl ol newlens acc i) (BinInt.Z.add (fv_to nl j) o) =
-          Disk.dk_get acc (BinInt.Z.add (fv_to nl j) o)).
+         (0 <= o < fv_len newlens j)%Z ->
+         ((j < i)%Z ->
+          Disk.dk_get (fix_step np unit_ oh nl ol newlens acc i) (fv_from ol j + o) =
+          Disk.dk_get acc (fv_from ol j + o)) /\
+         ((i < j)%Z ->
+          Disk.dk_get (fix_step np unit_ oh nl ol newlens acc i) (fv_to nl j + o) =
+          Disk.dk_get acc (fv_to nl j + o)).
 Proof. exact @move_fixed_step_no_clobber. Qed.
 Print Assumptions C06_move_fixed_step_no_clobber.
+
+Theorem C06_begins_monotone :
+  forall (oh h : Header.hdr) (ol lay : Header.layout) (hm vm ha ra : Z),
+         hdr_wf h ->
+         (0 <= hm)%Z ->
+         (0 <= vm)%Z ->
+         (0 < ha)%Z ->
+         (4 <= ra)%Z ->
+         (ra mod 4)%Z = 0%Z ->
+         lay_inv (t3of oh) ol ->
+         hdr_extends oh h ->
+         Header.begins h hm vm ha ra (redef_old oh ol) (Header.l_begin_rec ol) = Some lay ->
+         (forall i : Z,
+          (0 <= i < Base.Zlen (Header.h_vars oh))%Z ->
+          (Base.znth (Header.l_begins ol) i 0 <= Base.znth (Header.l_begins lay) i 0)%Z) /\
+         (Header.l_begin_var ol <= Header.l_begin_var lay)%Z /\
+         (Header.l_begin_rec ol <= Header.l_begin_rec lay)%Z /\
+         (Header.l_recsize ol <= Header.l_recsize lay)%Z /\ (0 <= Header.l_recsize ol)%Z.
+Proof. exact @begins_monotone. Qed.
+Print Assumptions C06_begins_monotone.
+
+Theorem C06_moved_disk_preserves_data :
+  forall (oh h : Header.hdr) (ol lay : Header.layout) (hm vm ha ra : Z) 
+           (d0 : Disk.disk) (np unit_ numrecs : Z),
+         hdr_wf h ->
+         (0 <= hm)%Z ->
+         (0 <= vm)%Z ->
+         (0 < ha)%Z ->
+         (4 <= ra)%Z ->
+         (ra mod 4)%Z = 0%Z ->
+         lay_inv (t3of oh) ol ->
+         hdr_extends oh h ->
+         Header.begins h hm vm ha ra (redef_old oh ol) (Header.l_begin_rec ol) = Some lay ->
+         (np >= 1)%Z ->
+         (unit_ >= 1)%Z ->
+         (0 <= numrecs)%Z ->
+         let d1 := moved_disk d0 np unit_ numrecs oh h ol lay in
+         forall i : Z,
+         (0 <= i < Base.Zlen (Header.h_vars oh))%Z ->
+         let ov := Base.znth (Header.h_vars oh) i dv in
+         let len := Header.var_len (Header.h_dims oh) ov in
+         let ob := Base.znth (Header.l_begins ol) i 0%Z in
+         let nb := Base.znth (Header.l_begins lay) i 0%Z in
+         (Header.is_recvar (Header.h_dims oh) ov = false ->
+          forall o : Z, (0 <= o < len)%Z -> Disk.dk_get d1 (nb + o) = Disk.dk_get d0 (ob + o)) /\
+         (Header.is_recvar (Header.h_dims oh) ov = true ->
+          (nb - Header.l_begin_rec lay)%Z = (ob - Header.l_begin_rec ol)%Z /\
+          (forall r o : Z,
+           (0 <= r < numrecs)%Z ->
+           (0 <= o < len)%Z ->
+           (ob - Header.l_begin_rec ol + o < Header.l_recsize ol)%Z ->
+           Disk.dk_get d1 (nb + r * Header.l_recsize lay + o) =
+           Disk.dk_get d0 (ob + r * Header.l_recsize ol + o))).
+Proof. exact @moved_disk_preserves_data. Qed.
+Print Assumptions C06_moved_disk_preserves_data.
+
+Theorem C06_redef_preserves_data :
+  forall (oh h : Header.hdr) (ol lay : Header.layout) (hm vm ha ra : Z) 
+           (d0 : Disk.disk) (np unit_ numrecs : Z),
+         hdr_wf h ->
+         (0 <= hm)%Z ->
+         (0 <= vm)%Z ->
+         (0 < ha)%Z ->
+         (4 <= ra)%Z ->
+         (ra mod 4)%Z = 0%Z ->
+         lay_inv (t3of oh) ol ->
+         hdr_extends oh h ->
+         Header.begins h hm vm ha ra (redef_old oh ol) (Header.l_begin_rec ol) = Some lay ->
+         (np >= 1)%Z ->
+         (unit_ >= 1)%Z ->
+         (0 <= numrecs)%Z ->
+         Proofs_Header.wf_hdr (new_header h lay numrecs) = true ->
+         let d2 := enddef_disk d0 np unit_ numrecs oh h ol lay in
+         forall i : Z,
+         (0 <= i < Base.Zlen (Header.h_vars oh))%Z ->
+         let ov := Base.znth (Header.h_vars oh) i dv in
+         let len := Header.var_len (Header.h_dims oh) ov in
+         let ob := Base.znth (Header.l_begins ol) i 0%Z in
+         let nb := Base.znth (Header.l_begins lay) i 0%Z in
+         (Header.is_recvar (Header.h_dims oh) ov = false ->
+          forall o : Z, (0 <= o < len)%Z -> Disk.dk_get d2 (nb + o) = Disk.dk_get d0 (ob + o)) /\
+         (Header.is_recvar (Header.h_dims oh) ov = true ->
+          (nb - Header.l_begin_rec lay)%Z = (ob - Header.l_begin_rec ol)%Z /\
+          (forall r o : Z,
+           (0 <= r < numrecs)%Z ->
+           (0 <= o < len)%Z ->
+           (ob - Header.l_begin_rec ol + o < Header.l_recsize ol)%Z ->
+           Disk.dk_get d2 (nb + r * Header.l_recsize lay + o) =
+           Disk.dk_get d0 (ob + r * Header.l_recsize ol + o))).
+Proof. exact @redef_preserves_data. Qed.
+Print Assumptions C06_redef_preserves_data.
+
+Theorem C06_triggers_complete :
+  forall (oh h : Header.hdr) (ol lay : Header.layout) (hm vm ha ra : Z),
+         hdr_wf h ->
+         (0 <= hm)%Z ->
+         (0 <= vm)%Z ->
+         (0 < ha)%Z ->
+         (4 <= ra)%Z ->
+         (ra mod 4)%Z = 0%Z ->
+         lay_inv (t3of oh) ol ->
+         hdr_extends oh h ->
+         Header.begins h hm vm ha ra (redef_old oh ol) (Header.l_begin_rec ol) = Some lay ->
+         ((Header.l_begin_var lay <= Header.l_begin_var ol)%Z ->
+          forall i : Z,
+          (0 <= i < Base.Zlen (Header.h_vars oh))%Z ->
+          fst (Base.znth (vsof oh) i dvs) = false ->
+          Base.znth (Header.l_begins lay) i 0%Z = Base.znth (Header.l_begins ol) i 0%Z) /\
+         ((Header.l_begin_var lay <= Header.l_begin_var ol)%Z ->
+          (Header.l_begin_rec lay <= Header.l_begin_rec ol)%Z ->
+          (Header.l_recsize lay <= Header.l_recsize ol)%Z ->
+          (forall i : Z,
+           (0 <= i < Base.Zlen (Header.h_vars oh))%Z ->
+           Base.znth (Header.l_begins lay) i 0%Z = Base.znth (Header.l_begins ol) i 0%Z) /\
+          Header.l_begin_rec lay = Header.l_begin_rec ol /\
+          Header.l_recsize lay = Header.l_recsize ol).
+Proof. exact @triggers_complete. Qed.
+Print Assumptions C06_triggers_complete.
